@@ -29,6 +29,8 @@ that rules are invariant under the commonest behaviour-preserving rewrites:
       in the statements between two bindings
   N23 `if A: ..; x = E1 else: ..; x = E2` followed by `if x: BODY` (x used nowhere else)  ->  the test is sunk into the branches:
       `if A: ..; if E1: BODY  else: ..; if E2: BODY`
+  N27 `for i in count(): if T: return i; BODY` -> `i = 0; while not T: BODY; i += 1` then `return i`;
+  N26 `(a, b, c, ...) = S.unpack(x)` -> `t = S.unpack(x); a = t[0]; b = t[1]; ...`;
   N25 `f = P if c else Q; f(args)` -> `if c: P(args) else: Q(args)` (a bound method chosen by a conditional expression);
   N24 a running maximum/minimum spelled as a guarded assignment: `if E > T: T = E` -> `T = max(T, E)` (mirror image for min);
       `if T is None or E < T: T = E` -> `if T is None: T = E else: T = min(T, E)`
@@ -286,6 +288,62 @@ class Desugar(ast.NodeTransformer):
                     out.append(new)
                     continue
             out.append(st)
+        return out
+
+    def _counting_loops(self, stmts):
+        # N27: for i in count(): if T: return i; BODY     (last statement of the block, no else, i a plain name)
+        #      ->  i = 0; while not T: BODY; i += 1        followed by   return i
+        out = []
+        for s in stmts:
+            if isinstance(s, ast.For) and not s.orelse and isinstance(s.target, ast.Name) and isinstance(s.iter, ast.Call) \
+                    and not s.iter.args and not s.iter.keywords \
+                    and (getattr(s.iter.func, "id", None) == "count" or getattr(s.iter.func, "attr", None) == "count") \
+                    and len(s.body) >= 2 and isinstance(s.body[0], ast.If) and not s.body[0].orelse and len(s.body[0].body) == 1 \
+                    and isinstance(s.body[0].body[0], ast.Return) and isinstance(s.body[0].body[0].value, ast.Name) \
+                    and s.body[0].body[0].value.id == s.target.id and s is stmts[-1] \
+                    and not any(isinstance(x, (ast.Break, ast.Continue)) for b in s.body[1:] for x in ast.walk(b)):
+                t = s.body[0].test
+                if isinstance(t, ast.BoolOp) and isinstance(t.op, ast.Or) and all(isinstance(v, ast.UnaryOp) and isinstance(v.op, ast.Not)
+                                                                                   for v in t.values):
+                    nt = ast.BoolOp(op=ast.And(), values=[v.operand for v in t.values])
+                elif isinstance(t, ast.UnaryOp) and isinstance(t.op, ast.Not):
+                    nt = t.operand
+                else:
+                    nt = ast.UnaryOp(op=ast.Not(), operand=t)
+                i = s.target.id
+                init = ast.Assign(targets=[ast.Name(id=i, ctx=ast.Store())], value=ast.Constant(value=0))
+                inc = ast.AugAssign(target=ast.Name(id=i, ctx=ast.Store()), op=ast.Add(), value=ast.Constant(value=1))
+                loop = ast.While(test=nt, body=list(s.body[1:]) + [inc], orelse=[])
+                ret = ast.Return(value=ast.Name(id=i, ctx=ast.Load()))
+                for x in (init, loop, ret):
+                    ast.copy_location(x, s)
+                    ast.fix_missing_locations(x)
+                out.extend([init, loop, ret])
+                continue
+            out.append(s)
+        return out
+
+    def _index_struct_unpack(self, stmts):
+        # N26: (a, b, c, ...) = S.unpack(...)   ->   t = S.unpack(...); a = t[0]; b = t[1]; ...   (three or more plain names)
+        out = []
+        for s in stmts:
+            if isinstance(s, ast.Assign) and len(s.targets) == 1 and isinstance(s.targets[0], ast.Tuple) \
+                    and len(s.targets[0].elts) >= 3 and all(isinstance(e, ast.Name) for e in s.targets[0].elts) \
+                    and isinstance(s.value, ast.Call) and isinstance(s.value.func, ast.Attribute) \
+                    and s.value.func.attr in ("unpack", "unpack_from"):
+                tmp = "_n26_%d" % getattr(s, "lineno", 0)
+                a = ast.Assign(targets=[ast.Name(id=tmp, ctx=ast.Store())], value=s.value)
+                ast.copy_location(a, s)
+                out.append(a)
+                for i, e in enumerate(s.targets[0].elts):
+                    b = ast.Assign(targets=[ast.Name(id=e.id, ctx=ast.Store())],
+                                   value=ast.Subscript(value=ast.Name(id=tmp, ctx=ast.Load()), slice=ast.Constant(value=i), ctx=ast.Load()))
+                    ast.copy_location(b, s)
+                    ast.fix_missing_locations(b)
+                    out.append(b)
+                ast.fix_missing_locations(a)
+                continue
+            out.append(s)
         return out
 
     def _sink_callable_choice(self, stmts):
@@ -592,6 +650,8 @@ class Desugar(ast.NodeTransformer):
             visited.extend(r if isinstance(r, list) else [r])
         visited = self._loops_to_builtins(visited)
         visited = self._sink_callable_choice(visited)
+        visited = self._index_struct_unpack(visited)
+        visited = self._counting_loops(visited)
         visited = self._return_temps(visited)
         visited = self._split_parallel_assignments(visited)
         visited = self._dict_calls(visited)
